@@ -32,14 +32,11 @@ Print Assumptions C08_work_sort_blocks_refines.
 
 (* A later operation sees what an earlier one did: e.g. dropping the retraction that was
    just added leaves no entry for it. *)
-Example C08_later_op_sees_earlier : forall f (lo hi rat : str) f1 f2,
+Theorem C08_later_op_sees_earlier : forall f (lo hi rat : str) f1 f2,
   add_retract f lo hi rat = ROk f1 -> drop_retract f1 lo hi = Some f2 ->
   ~ In (lo, hi, rat) (k_retract (abs f2)).
-Proof.
-  intros f lo hi rat f1 f2 H1 H2. rewrite (drop_retract_abs _ _ _ _ H2). cbn.
-  unfold drop. intros Hin. apply filter_In in Hin. destruct Hin as [_ Hin].
-  rewrite !str_eqb_refl in Hin. discriminate.
-Qed.
+Proof. exact later_op_sees_earlier. Qed.
+Print Assumptions C08_later_op_sees_earlier.
 
 (* Comments.  [keeps_except T s s']: every line that exists in s and is not in T has in s'
    the comments it had in s, possibly extended at the outside by the comments of a
@@ -58,7 +55,7 @@ Print Assumptions C08_untargeted_lines_keep_comments.
 Theorem C08_untargeted_lines_keep_comments_run : forall ops f errs f',
   run_ops ops f = RunOk errs f' ->
   keeps_except (seq_targets ops f) (fsyn f) (fsyn f').
-Proof. intros ops f errs f'. apply comments_kept_run. Qed.
+Proof. exact comments_kept_run_ops. Qed.
 Print Assumptions C08_untargeted_lines_keep_comments_run.
 
 (* NOT PROVED here:
